@@ -197,6 +197,40 @@ Proof.
   rewrite affine_diff. now rewrite (make_rows_nth _ _ _ _ _ _ Hns' e He).
 Qed.
 
+(* 4. order1_only=True on second-order elements: in nodal mode femio builds the
+   operator on the mesh reduced to first-order nodes ([mesh_view]); the
+   theorems above quantify over every mesh, so they hold for that view.  Two
+   instances, stated for reference. *)
+Theorem C15_order1_grad_const_zero :
+  forall (order1 : bool) (k1 : nat) (o : opts) (kern : V3 R -> R) (m : mesh R) (evol : list R) As,
+    spatial_gradient_adjacency_matrices_x ROps order1 k1 o kern m evol = Some As ->
+    forall A, In A As -> forall (c : R) (i : nat), spmv ROps A (fun _ => c) i = 0.
+Proof.
+  intros order1 k1 o kern m evol As H. exact (C15_grad_const_zero o kern _ evol As H).
+Qed.
+
+Theorem C15_order1_exact_on_spanning_neighbourhoods :
+  forall (order1 : bool) (k1 : nat) (o : opts) (kern : V3 R -> R) (m : mesh R) (evol : list R)
+         As rows inc,
+    let mv := mesh_view order1 k1 o m in
+    o_moment o = true ->
+    spatial_gradient_adjacency_matrices_x ROps order1 k1 o kern m evol = Some As ->
+    mesh_rows ROps o kern mv evol = Some rows ->
+    incidence mv = Some inc ->
+    (forall v, 0 < kern v) ->
+    length evol = length inc -> Forall (fun v => 0 < v) evol ->
+    (forall j, (j < length (m_nodes mv))%nat -> Exists (fun e => mem_nat j e = true) inc) ->
+    let P := vertex_positions ROps (o_mode o) mv inc in
+    forall i ns, nth_error rows i = Some ns ->
+    (exists e1 e2 e3, In e1 ns /\ In e2 ns /\ In e3 ns /\
+                      det33 ROps (nb_off e1, nb_off e2, nb_off e3) <> 0) ->
+    forall (g : V3 R) (c : R) (a : nat), (a < 3)%nat ->
+      spmv ROps (nth a As []) (affine g c P) i = comp a g.
+Proof.
+  intros order1 k1 o kern m evol As rows inc mv Hmm HA.
+  exact (C15_exact_on_spanning_neighbourhoods o kern mv evol As rows inc Hmm HA).
+Qed.
+
 (* ------------------------------------------------------------------ *)
 (* non-vacuity: a tetrahedron with sparse, unsorted ids; at the vertex with
    id 10 (storage position 1) the three neighbours span space, the moment
